@@ -272,6 +272,13 @@ func (d *OrderedDaemon) Start() {
 	d.lock.Lock()
 	defer d.lock.Unlock()
 
+	// check again while holding the lock: a shutdown may have started or even finished since
+	// the check above. Without this, a Start that overlaps the end of a shutdown sees the
+	// daemon as "not running" and launches every registered worker (again).
+	if d.IsStopped() {
+		return
+	}
+
 	if !d.IsRunning() {
 		d.running.Store(true)
 		for name, worker := range d.workers {
@@ -302,7 +309,14 @@ func (d *OrderedDaemon) shutdown() {
 
 	d.stopped.Store(true)
 	d.stoppedCtxCancel()
-	if !d.IsRunning() {
+
+	// read the running flag under the lock: Start holds the lock while it launches the workers,
+	// so either Start sees the stopped flag and launches nothing, or we see the daemon running
+	// with all workers launched and stop them.
+	d.lock.RLock()
+	running := d.IsRunning()
+	d.lock.RUnlock()
+	if !running {
 		return
 	}
 
